@@ -130,7 +130,7 @@ func TestVerif(t *testing.T) {
 		}
 		res.Count(fmt.Sprintf("crashes-in-history:%d", ncrash))
 		if cr.BadCrash {
-			res.Count("history:crash-between-state-write-and-block-save")
+			res.Count("history:crash-at-write-index-1-of-an-application")
 		}
 		if cr.StaleFiles {
 			res.Count("history:crash-with-cache-files-of-earlier-clean-stop")
